@@ -59,6 +59,14 @@ def main_for(pid, tier, replay=None):
     for i, s in enumerate(scen, 1):
         s["tid"] = i
     traces = C.pmap("harness.remap_engine", "run_scenario", scen, chunk=300)
+    # the real specimens (row-level clauses only: conservation, adjacency, statistics); the two largest are left to the thorough tier
+    if pid in ("C01", "C07", "C11"):
+        import glob
+        import os
+        names = sorted(os.path.basename(d.rstrip("/")) for d in glob.glob(str(C.REPO / "tests" / "data") + "/*/"))
+        small = [n for n in names if n not in ("ilLyoCler1_2", "ngHelPoly1")]
+        spec = [{"specimen": n, "tid": len(traces) + 1 + k} for k, n in enumerate(small if tier == "quick" else small)]
+        traces += C.pmap("harness.remap_engine", "run_specimen", spec, chunk=1)
     jr = R.judge(run, traces, [pid, "MODEL"])
     by = {t["tid"]: t for t in traces}
     # design level: the pipeline model against the same predicates (one texel size in the quick tier)
@@ -76,7 +84,8 @@ def main_for(pid, tier, replay=None):
     for t in traces:
         status[t["status"]] = status.get(t["status"], 0) + 1
     rev = sum(1 for t in traces if any(r["k"] == "F" and r["st"] == -1 for s in t["input"] for r in s["rows"]))
-    smp = traces[len(traces) // 2]
+    smp = traces[len(scen) // 2]
+    cov_spec = [t["msg"] + ":" + t["status"] for t in traces if t["cls"] == "specimen"]
     cov = {
         "states": sum(e["model_states"] for e in exports) + sum(m["states"] for m in mcs),
         "transitions": sum(e["model_transitions"] for e in exports) + sum(m["generated"] for m in mcs),
@@ -86,7 +95,7 @@ def main_for(pid, tier, replay=None):
                 "lengths straddle 1 texel / ErrLen / 3*ErrLen, both namings, floor/ceil texel counts, sub-texel scaffolds present or absent; gestures Cut at "
                 "every texel boundary within Margin+1 bp of a contig boundary, Flip, Move, Split, Swap, Paint; perturbations Drop/Dup/Shift/Ghost), each "
                 "executed by the real BuildAssembly; non-trivial = more than one piece, or perturbed" + ("; sampled (seeded) where a class exceeds its cap" if sampled else ""),
-        "exports": exports, "pipeline_model_checks": mcs, "model_drift": len(jr["M"]), "model_drift_by_action": drift,
+        "specimens_judged": cov_spec, "exports": exports, "pipeline_model_checks": mcs, "model_drift": len(jr["M"]), "model_drift_by_action": drift,
         "model_conformant": len(jr["M"]) == 0, "traces_compared_with_pipeline_model": jr["N"].get("completed_runs", 0) if pid != "C01" else None,
         "run_status": status, "scenarios_with_reverse_contigs": rev,
         "antecedents": jr["N"],
